@@ -376,7 +376,7 @@ func (x *Exec) typeReadsIn(st *State, t *Term) {
 		if !ok {
 			return
 		}
-		if strings.HasPrefix(info.name, "arr:") {
+		if strings.HasPrefix(info.name, "arr:") || strings.HasPrefix(info.name, "mapval:") {
 			// element heaps are shared by all slices whose elements have the same sort ([]klog.Record and
 			// []txt.Error both live in arr:Iface; []int and []*T in arr:Int): only facts that hold for every
 			// Go type of that sort may be stated
@@ -404,6 +404,25 @@ func (x *Exec) typeReadsIn(st *State, t *Term) {
 			x.ctx.facts = append(x.ctx.facts, f)
 		}
 	}
+	// the array read is a conditional / updated version of heap arrays (a slice variable merged over paths, or read
+	// through several heap versions): every leaf array holds well-typed elements with respect to its own version
+	var leaves func(arr, idx *Term, depth int)
+	leaves = func(arr, idx *Term, depth int) {
+		if depth > 8 || hasFreeBound(idx) {
+			return
+		}
+		switch arr.op {
+		case "ite":
+			leaves(arr.args[1], idx, depth+1)
+			leaves(arr.args[2], idx, depth+1)
+		case "store":
+			leaves(arr.args[0], idx, depth+1)
+		case "select":
+			if len(arr.args) == 2 && !hasFreeBound(arr) {
+				add(Select(arr, idx), arr.args[0])
+			}
+		}
+	}
 	var walk func(t *Term)
 	walk = func(t *Term) {
 		if seen[t.id] || t.op == "forall" || t.op == "exists" {
@@ -415,12 +434,16 @@ func (x *Exec) typeReadsIn(st *State, t *Term) {
 			a := t.args[0]
 			if a.op == "select" && len(a.args) == 2 {
 				add(t, a.args[0]) // element of a slice's backing array
+			} else if (a.op == "ite" || a.op == "store") && !t.sort.isArray() {
+				leaves(a, t.args[1], 0)
 			} else if !t.sort.isArray() {
 				add(t, a) // field map
 			}
 		case len(t.op) > 3 && t.op[:3] == "at." && len(t.args) == 3:
 			if a := t.args[0]; a.op == "select" && len(a.args) == 2 {
 				add(t, a.args[0])
+			} else if a.op == "ite" || a.op == "store" {
+				leaves(a, Add(t.args[1], t.args[2]), 0)
 			}
 		}
 		for _, a := range t.args {
